@@ -20,6 +20,7 @@ package ucfg
 import (
 	"fmt"
 	"os"
+	"reflect"
 	"strconv"
 	"strings"
 
@@ -55,6 +56,10 @@ type options struct {
 
 	configValueHandling configHandling
 	fieldHandlingTree   *fieldHandlingTree
+
+	// struct types being filled through nil pointers tagged inline (a type
+	// may inline a pointer to itself)
+	inlining []reflect.Type
 
 	// temporary cache of parsed splice values for lifetime of call to
 	// Unpack/Pack/Get/...
